@@ -150,9 +150,9 @@ func dev(args []string) {
 	}
 	type agg struct {
 		n, bad int
-		status  map[string]int
-		first   *vc.SolveResult
-		maxs    float64
+		status map[string]int
+		first  *vc.SolveResult
+		maxs   float64
 	}
 	groups := map[string]*agg{}
 	var order []string
